@@ -60,17 +60,12 @@ def main():
     )
     with open(os.path.join(VERIF, "MANIFEST.json"), "w") as f:
         json.dump(m, f, indent=1)
-    try:
-        try:
-            import jsonschema
-        except ImportError:
-            import glob
-            sys.path.append(glob.glob("/opt/veriftools/pyvenv/lib/python3*/site-packages")[0])
-            import jsonschema
-        jsonschema.validate(m, json.load(open("/root/.vp/MANIFEST.schema.json")))
-        print("MANIFEST.json valid: %d checks, %d not_applicable" % (len(checks), len(na)))
-    except (ImportError, IndexError):
-        print("jsonschema not available; not validated")
+    from vlib import validate
+    err = validate.validate(m, "/root/.vp/MANIFEST.schema.json")
+    if err:
+        print("MANIFEST.json INVALID: " + err)
+        sys.exit(1)
+    print("MANIFEST.json valid: %d checks, %d not_applicable" % (len(checks), len(na)))
 
 
 if __name__ == "__main__":
